@@ -6,7 +6,7 @@
    configuration [c]: a failing command anywhere (top level, function / loop / branch bodies,
    included files) is the instruction at [pc c], whose meta-information is what is reported. *)
 From stdpp Require Import gmap.
-Require Import DS.Base DS.Cond DS.Runner DS.RunnerSpec DS.SdkErr DS.SdkErrProof.
+Require Import DS.Base DS.Cond DS.Runner DS.RunnerSpec DS.SdkErr DS.SdkErrProof DS.SdkErrInst DS.RunnerExamples.
 Local Open Scope nat_scope.
 
 Section C10.
@@ -120,3 +120,12 @@ Theorem C10_alias : forall ustate uexists ucmd ext prog prepare cleanup leaked c
    inr (FErr (RHandlerCrash (Msg m)) (i_meta i),
         trace c ++ [Event (pc c) [k; Call on_error_name (report_inv m (i_meta i))]])).
 Proof. exact alias_error_at_caller. Qed.
+
+(* non-vacuity: two errors in sequence (lines 4 and 9 of file "/s"): the queries see the second one,
+   both output variables read "false"; after exit_on_error true the next error (line 13) is fatal *)
+Theorem C10_nonvacuous :
+  (exists c, e_iter 4 ex_sdk_prog [] = Some c /\
+             vars (wd c) !! s_e = Some s_m2 /\ vars (wd c) !! s_l = Some [57]%N /\
+             vars (wd c) !! s_x = Some false_str /\ vars (wd c) !! s_y = Some false_str) /\
+  (exists t, e_run 20 ex_sdk_prog [] = Done (FErr (RHandlerCrash (Msg msg_assert_failed)) (Meta (Some 13) (Some s_src))) t).
+Proof. exact (conj ex_sdk_latest ex_sdk_computed). Qed.
